@@ -65,7 +65,9 @@ Scripts == <<
                                   G(<<[t |-> "idx", x |-> "A", e |-> I(1)]>>, <<>>, <<I(0)>>), G(<<>>, <<>>, <<F(1, 2)>>)>>),        \* 16 indexes A, then fails (bad mode)
   Sc("idxother", NoM, NoM, <<>>, <<[t |-> "arr", ty |-> "float", x |-> "A", shape |-> <<>>, rows |-> << <<F(11, 1), F(12, 1)>>, <<F(13, 1), F(14, 1)>> >>],
                                    G(<<[t |-> "idx", x |-> "A", e |-> I(1)], [t |-> "idx", x |-> "A", e |-> I(3)]>>, <<>>, <<I(0)>>)>>),   \* 17 another A, indexed
-  Sc("nested", NoM, NoM, <<IncOuter>>, <<Stmt("outer", FALSE, <<>>, <<>>, <<I(4), I(3)>>, "sq")>>)                \* 18 include of a file that includes another
+  Sc("idxrange", NoM, NoM, <<>>, <<DeclX, [t |-> "arr", ty |-> "float", x |-> "A", shape |-> <<>>, rows |-> << <<F(1, 2), F(3, 2)>> >>],
+                                   [t |-> "var", ty |-> "int", x |-> "i", e |-> I(7)], G(<<[t |-> "idx", x |-> "A", e |-> I(5)]>>, <<>>, <<I(0)>>)>>),   \* 18 index beyond the array (IndexError)
+  Sc("nested", NoM, NoM, <<IncOuter>>, <<Stmt("outer", FALSE, <<>>, <<>>, <<I(4), I(3)>>, "sq")>>)                \* 19 include of a file that includes another
 >>
 HasIncs(i) == "syntaxerr" \notin DOMAIN Scripts[i] /\ Len(Scripts[i].incs) > 0
 SyntaxOutcome == Raise("BSE", "syntax")
